@@ -220,6 +220,9 @@ def scenario_for(pname, pers, scope, force=None, image=0):
     return scenario
 
 
+PARTS = 16
+
+
 def shards(tier, seed):
     sh = []
     for pn in PROJECTS:
@@ -232,7 +235,11 @@ def shards(tier, seed):
     # P0: the demo project rebuilt from tests/pycomm3.L5X (a v20 controller; also served as v32)
     for pers in ("v20", "v32"):
         for scope in SCOPES:
-            sh.append(("explore", "P0", pers, scope))
+            if tier == "thorough":
+                # bound 2 on the big project: one exploration split over PARTS workers by the position of the first deviation
+                sh += [("explore", "P0", pers, scope, k) for k in range(PARTS)]
+            else:
+                sh.append(("explore", "P0", pers, scope))
             sh.append(("forced", "P0", pers, scope))
     sh.append(("fixture", "P0", "v20", "all"))
     for pers in ("v20", "v32"):
@@ -358,7 +365,8 @@ def twins_shard(rep, pers):
 
 def run_shard(shard, tier, seed):
     rep = Report()
-    kind, pn, pers, scope = shard
+    kind, pn, pers, scope = shard[:4]
+    part = (shard[4], PARTS) if len(shard) > 4 else None
     if kind == "twins":
         twins_shard(rep, pers)
         return rep
@@ -382,7 +390,7 @@ def run_shard(shard, tier, seed):
                 canons.add(out[2])
         try:
             check_deterministic(sc)
-            st = explore(sc, bound, on_exec)
+            st = explore(sc, bound, on_exec, part=part)
         except Diverged as e:
             # every execution builds a fresh controller, network and driver: if the same scenario meets different choice
             # points the second time, the library carries state from one upload / driver object to the next
